@@ -24,7 +24,7 @@ def gen_param_value(r, family, depth=0):
     if family == 'int':
         return r.choice([0, 1, 2, 3, -1, 10, 2**40, -7])
     if family == 'float':
-        return r.choice([0.5, 1.5, -2.25, 1e-3, 3.0, 1e20, 0.1])
+        return r.choice([0.5, 1.5, -2.25, 1e-3, 3.0, 1e20, 0.1, 0.0, 1.0])     # (0.0 == False and 1.0 == True in python: other values of other parameters)
     if family == 'str':
         return ''.join(r.choice(SAFE_CHARS) for _ in range(r.choice([0, 1, 3, 6])))
     if family == 'bool':
